@@ -78,7 +78,7 @@ func RunHs(t *testing.T, sc *HsScenario) *HsResult {
 			var wg sync.WaitGroup
 			maxAttempts := 1
 			if sc.Retry {
-				maxAttempts = 5
+				maxAttempts = 8
 			}
 			// each side behaves like the mailbox layer above it: connect, use
 			// the connection, and on any failure close it and connect again
@@ -91,6 +91,7 @@ func RunHs(t *testing.T, sc *HsScenario) *HsResult {
 					mu.Unlock()
 					var conn *gbn.GoBackNConn
 					var err error
+					sim.log(Event{EP: ep, Kind: "hs-start"})
 					if ep == 0 {
 						conn, err = gbn.NewClientConn(ctx, sc.N, sim.sendFunc(0), sim.recvFunc(0), opts...)
 					} else {
@@ -130,8 +131,8 @@ func RunHs(t *testing.T, sc *HsScenario) *HsResult {
 						res.Delivered[1-ep] = true
 						mu.Unlock()
 						// stay up until the peer has what we sent
-						for k := 0; k < 40; k++ {
-							time.Sleep(time.Second)
+						for k := 0; k < 4000; k++ {
+							time.Sleep(10 * time.Millisecond)
 							mu.Lock()
 							d := res.Delivered[ep]
 							mu.Unlock()
@@ -140,7 +141,9 @@ func RunHs(t *testing.T, sc *HsScenario) *HsResult {
 							}
 						}
 					}
+					sim.log(Event{EP: ep, Kind: "close"})
 					conn.Close()
+					sim.log(Event{EP: ep, Kind: "close-ret"})
 					<-sendDone
 					mu.Lock()
 					both := res.Delivered[0] && res.Delivered[1]
